@@ -59,7 +59,8 @@ func runC02(r *run) {
 			g.taint = c02Marker
 			w := &world{}
 			for _, p := range []string{"", ":2", ":\"x\"", ":s2", ":n1"} {
-				emit(caseT{"render", w.args("{{ s1|"+f+p+" }}/{{ lst|"+f+p+" }}", g.context(0))})
+				emit(caseT{"render", append(w.args("{{ s1|"+f+p+" }}/{{ lst|"+f+p+" }}", g.context(0)),
+					hexList([]string{"verifprobe"}), hexList([]string{"verifprobetag"}))})
 			}
 		}
 		// values Go code passes with a String method, a cycle value, map keys, nested data
@@ -115,9 +116,22 @@ func execC02(r *run, c caseT) {
 	// Known finding: the filter tag writes the result of its chain raw, so a tainted filter
 	// *parameter* is emitted unescaped. Attribute a rejection to it only if the same template
 	// with the filter tag's variable parameters replaced by a clean literal is clean.
-	if strings.Contains(src, "{% filter ") {
-		if clean, changed := cleanFilterTagParams(src); changed {
-			o2, _ := w.render(clean, false, ctx)
+	{
+		clean, changed := cleanFilterTagParams(src)
+		w2 := *w
+		w2.files = nil
+		for _, m := range w.files {
+			m2 := map[string]string{}
+			for k, v := range m {
+				cv, ch := cleanFilterTagParams(v)
+				m2[k] = cv
+				changed = changed || ch
+			}
+			w2.files = append(w2.files, m2)
+		}
+		detail["files"] = w.files
+		if changed {
+			o2, _ := w2.render(clean, false, ctx)
 			if o2.err == nil && o2.panicked == nil && !hasRaw(o2.out) {
 				r.reject(id, "KF:C02-filter-tag-parameter a tainted parameter of the filter tag reaches the output unescaped", detail)
 				return
